@@ -89,6 +89,13 @@ theorem C01_every_list_form_problem (h : p.InputOK) (h2 : (2 : K) ≠ 0) :
       ∀ (m : Fin p.nparams →₀ ℕ) (a b : Fin p.d), p.keptE a.val b.val = false → coeff m (p.sr "U†" * p.sr "H" * p.sr "U") a b = 0 :=
   ⟨Problem.C01 h.accepted h2, fun m a b hk => Problem.C01_elim h.accepted h2 m a b hk⟩
 
+/-- **C01** for masks given by the caller: besides the input facts, exactly the two facts about the masks that `block_diagonalize` checks (C20:
+`C20_asymmetric_mask`, `C20_mask_eliminates_degenerate_pair`) — symmetric, and no entry selected between levels equal within `atol` — are needed -/
+theorem C01_every_masked_problem (h : p.MasksOK) (h2 : (2 : K) ≠ 0) :
+    p.sr "U†" * p.sr "H" * p.sr "U" = p.sr "H_tilde" ∧
+      ∀ (m : Fin p.nparams →₀ ℕ) (a b : Fin p.d), p.keptE a.val b.val = false → coeff m (p.sr "U†" * p.sr "H" * p.sr "U") a b = 0 :=
+  ⟨Problem.C01 h.accepted h2, fun m a b hk => Problem.C01_elim h.accepted h2 m a b hk⟩
+
 /-! Non-vacuity: concrete accepted problems over ℚ — three 1×1 blocks; two blocks with a partial mask on one of them and a
 degenerate kept pair; the default two-block call (optimised flags on); a single block with two parameters. -/
 example : w3.sr "U†" * w3.sr "H" * w3.sr "U" = w3.sr "H_tilde" := C01_similarity w3_accepted (by norm_num)
@@ -97,6 +104,7 @@ example : w2.sr "U†" * w2.sr "H" * w2.sr "U" = w2.sr "H_tilde" := C01_similari
 -- two blocks, `fully_diagonalize=[0]`, the two levels of the first block exactly `atol` apart
 example : wlist.sr "U†" * wlist.sr "H" * wlist.sr "U" = wlist.sr "H_tilde" := (C01_every_list_form_problem wlist_input (by norm_num)).1
 example : wall.sr "U†" * wall.sr "H" * wall.sr "U" = wall.sr "H_tilde" := (C01_every_list_form_problem wall_input (by norm_num)).1
+example : wd.sr "U†" * wd.sr "H" * wd.sr "U" = wd.sr "H_tilde" := (C01_every_masked_problem wd_masks (by norm_num)).1
 -- a chain of levels 0, 7, 14 under `atol = 10` in a fully diagonalised block: the ends are farther apart than `atol` and kept together all the same
 example : wchain.sr "U†" * wchain.sr "H" * wchain.sr "U" = wchain.sr "H_tilde" := (C01_chains_of_close_levels wchain_core (by norm_num)).1
 example : w1.sr "U†" * w1.sr "H" * w1.sr "U" = w1.sr "H_tilde" := C01_similarity w1_accepted (by norm_num)
